@@ -91,6 +91,12 @@ claim("C06", "The real make_export_name is executed on a symbolic name (all stri
       "and (CrossHair) every directory class - generic, AKAI image/volume, CDDA image, Roland performance/partial - applies both renaming routines to its "
       "children exactly once.", ST + "; CrossHair for the per-level routine obligations", "DESIGN.md 2/C06")
 
+claim("C05", "The real combine_stereo_routine/combine_stereo run on N symbolic, pairwise distinct sibling names: z3 shows that exactly the pairs the statement "
+      "defines (same name up to a final L/R preceded by blank or hyphen) are merged, with the L stream first whatever the order in the directory, named after "
+      "the stem, and that every other sample passes through once and unchanged (channels add up to N, no stream twice). Channel placement of the two streams "
+      "is decided by the stereo obligations of C11/C12; per-level hand-over by a CrossHair run of the real export_samples on stub trees.",
+      ST + "; CrossHair for level hand-over and interleaving", "DESIGN.md 2/C05")
+
 _pending = "check not built yet in this session (work in progress; see DESIGN.md section 2 for the planned obligations)"
 for _p in ["C01","C02","C03","C04","C05","C06","C07","C09","C10","C11","C12","C13","C14","C15","C16","C17","C18","C19","C20"]:
     if _p not in CHECKS:
